@@ -66,6 +66,16 @@ def view (name arg : String) : Option (DSD_Complex.M String) :=
   | "kernel_string" => some (do let r ← py_DSD_Complex_kernel_string; pure ("'" ++ String.ofList r ++ "'"))
   | "lol_sequence" => some (do let r ← py_DSD_Complex_lol_sequence; pure ("|".intercalate (r.map (" ".intercalate ·))))
   | "get_domain" => (parseNat2 arg).map (fun l => do let r ← py_DSD_Complex_get_domain l; pure r)
+  | "rotate_pairtable_loc" =>
+    -- argument `<strand>.<domain>;<n>` with ints of either sign for <strand> and <n>, `None` for the default
+    match arg.splitOn ";" with
+    | [l, n] =>
+      match l.splitOn ".", (if n == "None" then some none else n.toInt?.map some) with
+      | [a, b], some n' => do
+        let a ← a.toInt?; let b ← b.toNat?
+        some (do let r ← py_DSD_Complex_rotate_pairtable_loc (a, b) n'; pure s!"{r.1}.{r.2}")
+      | _, _ => none
+    | _ => none
   | _ => none
 
 def put (d : LegacyDState) (id : Nat) (s : DSD_Complex.Self) : LegacyDState :=
